@@ -1,6 +1,7 @@
 //! gv <PROPERTY> <quick|thorough> [--replay <file>]
 //! exit 0 = held (or only known findings), 1 = violation, 2 = cannot decide.
 use gvlib::ctx::*;
+use gvlib::c20;
 use gvlib::container;
 use gvlib::contmap;
 use gvlib::drops;
@@ -29,6 +30,7 @@ fn run_property(prop: &str, ctx: &mut Ctx) {
         "C12" => container::run_c12(ctx),
         "C18" => contmap::run(ctx),
         "C19" => drops::run(ctx),
+        "C20" => c20::run(ctx),
         _ => {
             eprintln!("unknown property {}", prop);
             std::process::exit(2)
@@ -47,6 +49,7 @@ fn replay_case(prop: &str, v: &Value, st: &mut Stats) -> Result<(), String> {
         "C12" => container::replay_c12(case, st),
         "C18" => contmap::replay(case, st),
         "C19" => drops::replay(case, st),
+        "C20" => c20::replay(case, st),
         _ => Err(format!("no replay for {}", prop)),
     }
 }
